@@ -359,6 +359,14 @@ class TracedBus2(TracedBus):
     lazily through `cls` must still be shared by all of them)."""
 
 
+class TracedBusSized(TracedBus):
+    """A subclass that defines __len__ as its backlog (a natural thing for a queue-like object): such a bus is FALSY whenever its
+    queue is empty - e.g. while it handles its only queued event."""
+
+    def __len__(self) -> int:
+        return self.event_queue.qsize() if self.event_queue is not None else 0
+
+
 class Run:
     """One execution of one scenario."""
 
@@ -512,7 +520,10 @@ class Run:
                     wal = os.path.join(self.workdir, 'a', 'b', f'{i}_{d["name"]}.jsonl')
                 else:
                     wal = os.path.join(self.workdir, f'{i}_{d["name"]}.jsonl')
-            cls_ = TracedBus2 if d.get('sub') else TracedBus
+            cls_ = TracedBusSized if d.get('sized') else (TracedBus2 if d.get('sub') else TracedBus)
+            wctx = warnings.catch_warnings()
+            wctx.__enter__()
+            warnings.simplefilter('ignore')  # (name-conflict warnings of the constructor, also in strict-warnings programs)
             try:
                 b = cls_(name=d['name'], parallel_handlers=bool(d.get('par')), max_history_size=d.get('hist'), wal_path=wal)
             except AssertionError:
@@ -521,6 +532,8 @@ class Run:
                 d = dict(d, name='X' + d['name'].lstrip('_'))
                 self.sc['buses'][i] = d
                 b = cls_(name=d['name'], parallel_handlers=bool(d.get('par')), max_history_size=d.get('hist'), wal_path=wal)
+            finally:
+                wctx.__exit__(None, None, None)
             b._run = self
             b._idx = i
             self.buses[i] = b
@@ -538,7 +551,9 @@ class Run:
             if a == i:
                 tgt = self.getbus(d)
                 fn = tgt.dispatch
-                b.on('*' if pat == '*' else (TYPES[pat] if isinstance(pat, int) else pat), fn)
+                with warnings.catch_warnings():
+                    warnings.simplefilter('ignore')
+                    b.on('*' if pat == '*' else (TYPES[pat] if isinstance(pat, int) else pat), fn)
                 self.hmap[S.get_handler_id(fn, b)] = f'B{i}.fwd{fi}>B{d}'
                 self.keep.append(fn)
 
@@ -1190,7 +1205,9 @@ class Run:
                     a_, d_, pat_ = self.sc['late_fwd'][op[1]]
                     src, tgt = self.getbus(a_), self.getbus(d_)
                     fn = tgt.dispatch
-                    src.on('*' if pat_ == '*' else (TYPES[pat_] if isinstance(pat_, int) else pat_), fn)
+                    with warnings.catch_warnings():
+                        warnings.simplefilter('ignore')
+                        src.on('*' if pat_ == '*' else (TYPES[pat_] if isinstance(pat_, int) else pat_), fn)
                     self.hmap[S.get_handler_id(fn, src)] = f'B{a_}.lfwd{op[1]}>B{d_}'
                     self.keep.append(fn)
                     self.rec('on_fwd', by=by, k_=op[1], src=a_, dst=d_)
@@ -1453,6 +1470,11 @@ def run_scenario(sc: dict, workdir: str | None = None, keep_run: bool = False):
     _RUN = run
     hang = None
     restore_io = _install_io_fault(sc.get('wal_fault'), run)
+    wmain = warnings.catch_warnings()
+    wmain.__enter__()
+    if sc.get('strict_warnings'):
+        # the program runs with warnings promoted to errors (python -W error::UserWarning, pytest filterwarnings=error)
+        warnings.simplefilter('error', UserWarning)
     try:
         loop.run_until_complete(run._main())
     except Hang as h:
@@ -1471,6 +1493,7 @@ def run_scenario(sc: dict, workdir: str | None = None, keep_run: bool = False):
                     b.event_queue.shutdown()
                 except Exception:
                     pass
+        wmain.__exit__(None, None, None)
         left = hard_close(loop)
         if sc.get('second_loop') and hang is None and run.final is not None:
             try:
